@@ -37,7 +37,7 @@ def bounds(tier):
 
 
 def cases(tier):
-    out = [('sym', 'chain3', 2), ('sym', 'chain3', 3), ('sym', 'diamond', 2), ('sym', 'wiring', 2)]
+    out = [('sym', 'chain3', 2), ('sym', 'chain3', 3), ('sym', 'diamond', 2), ('sym', 'wiring', 2), ('namemode', 0, 0)]
     h = 3 if tier == 'quick' else 4
     for first in range(8):
         out.append(('hist', h, first))
@@ -60,6 +60,8 @@ def multichain(configs, symbolic=True):
 def make_harness(case, tier):
     if case[0] == 'sym':
         return sym(case)
+    if case[0] == 'namemode':
+        return namemode(case)
     return histories(case)
 
 
@@ -136,6 +138,37 @@ def sym(case):
     return harness
 
 
+def namemode(case):
+    """MultiChain(configs, parameter_mode=False): every member equals the standalone name-mode chain"""
+    hist.setup(full=True)
+
+    def harness(ctx):
+        from taskchain import Config, Chain
+        from taskchain.chain import MultiChain
+        world = hist.World(HP, HCFG)
+        fs = world.fs
+        cfgs, standalone = [], []
+        for i in range(2):
+            d = dict(HCFG[i], tasks=list(world.classes.values()))
+            cfgs.append(Config(fs.path('/data'), name=f'cfg{i}', data=dict(d)))
+            standalone.append(Chain(Config(fs.path('/data'), name=f'cfg{i}', data=dict(d)), parameter_mode=False))
+        mc = MultiChain(cfgs, parameter_mode=False)
+        for i in range(2):
+            m = mc[f'cfg{i}']
+            for n in HN[:3]:
+                ok = (m.tasks[n].name_for_persistence == standalone[i].tasks[n].name_for_persistence == f'cfg{i}'
+                      and m.tasks[n].data_path == standalone[i].tasks[n].data_path)
+                ctx.check_concrete(ok, 'member=standalone', {'mode': 'name', 'member': i, 'task': n,
+                                                             'key': m.tasks[n].name_for_persistence,
+                                                             'standalone_key': standalone[i].tasks[n].name_for_persistence})
+        # a result stored by the standalone chain is found by the member (same location)
+        standalone[0].tasks['b'].value
+        del family.RUNLOG[:]
+        v = mc['cfg0'].tasks['b'].value
+        ctx.check_concrete(not family.RUNLOG, 'member=standalone', {'mode': 'name', 'what': 'stored result reused', 'ran': list(family.RUNLOG)})
+    return harness
+
+
 HP = [P('A', params=[par('x')]), P('B', inputs=[inp('A')], params=[par('y', default=1)]),
       P('C', inputs=[inp('B')], data='dir'), P('D', params=[par('z', default=0)], data='mem')]
 HN = ['a', 'b', 'c', 'd']
@@ -146,7 +179,7 @@ def histories(case):
     _, h, first = case
     hist.setup(full=True)
     OPS = [('req', m, j) for m in range(2) for j in range(4)]
-    FORCE = [('force', j, fl) for j in range(3) for fl in range(2)]
+    FORCE = [('force', j, fl) for j in range(3) for fl in range(2)] + [('force-recompute-raising', 1, 0)]
 
     def harness(ctx):
         from taskchain import Config
@@ -179,6 +212,20 @@ def histories(case):
                 ctx.check_concrete(sorted(ran) == sorted(exp_runs), 'served-from-memory',
                                    dict(info, ran=ran, expected=exp_runs))
                 ctx.check_concrete(got == own, 'member=standalone', dict(info, got=repr(got)[:200], own=repr(own)[:200]))
+            elif op[0] == 'force-recompute-raising':
+                # forcing with recompute: an error raised by a task's run is the caller's to see
+                def boom(task):
+                    family.FAIL.pop('b', None)
+                    raise ValueError('run failed')
+                family.FAIL['b'] = boom
+                try:
+                    mc.force('b', recompute=True)
+                    raised = None
+                except ValueError as e:
+                    raised = 'ValueError'
+                family.FAIL.pop('b', None)
+                ctx.check_concrete(raised is not None, 'force-reaches-every-member', dict(info, what='error of a forced run propagates'))
+                return
             else:
                 _, j, fl = op
                 name = HN[j]
@@ -198,6 +245,6 @@ def histories(case):
 
 
 def run_case(case, tier):
-    ctx = explore.explore(make_harness(case, tier), max_paths=30000, time_budget_s=500,
+    ctx = explore.explore(make_harness(case, tier), max_paths=(30000 if tier == 'quick' else 1200000), time_budget_s=(500 if tier == 'quick' else 3600),
                           decide_timeout_ms=30000 if tier == 'quick' else 90000)
     return driver.result_from_ctx(ctx)
